@@ -1,4 +1,5 @@
 import EpgVerif.Props.C16
+import EpgVerif.Tie.CollSites
 open EpgVerif.Props.C16
 #print axioms inv_init
 #print axioms inv_set
@@ -14,3 +15,4 @@ open EpgVerif.Props.C16
 #print axioms resizeVals_crop
 #print axioms resizeVals_pad
 #print axioms resize_centre_odd
+#print axioms EpgVerif.Tie.CollSites.sites_as_modelled
